@@ -121,7 +121,7 @@ Definition sbc16 (a b c : Z) : Z * Z :=
 
 (* ---- block transfer / search: bc' is the counter AFTER the decrement ---- *)
 Definition ldx_flags (a v bc' f : Z) : Z :=
-  let n := (a + v) mod 256 in
+  let n := u8 (a + v) in
   Z.land f (FS + FZ + FC) + b2z (negb (bc' =? 0)) FPV + Z.land n F3 + b2z (Z.testbit n 1) F5.
 Definition cpx_flags (a v bc' f : Z) : Z :=
   let r := (a - v) mod 256 in
@@ -139,7 +139,12 @@ Definition ldair_flags (v : Z) (iff2 : bool) (f : Z) : Z := sz53 v + b2z iff2 FP
 (* refresh: the low seven bits count, bit 7 is kept *)
 Definition r_tick (r : Z) : Z := Z.land r 128 + (r + 1) mod 128.
 
-(* conditions NZ Z NC C PO PE P M, numbered 0..7 as in the opcode *)
-Definition cond (cc f : Z) : bool :=
-  let bitno := match cc / 2 with 0 => 6 | 1 => 0 | 2 => 2 | _ => 7 end in
-  Bool.eqb (Z.testbit f bitno) (cc mod 2 =? 1).
+(* conditions *)
+Inductive cc := NZ | Z_ | NC | C_ | PO | PE | P_ | M_.
+Definition cond (c : cc) (f : Z) : bool :=
+  match c with
+  | NZ => negb (Z.testbit f 6) | Z_ => Z.testbit f 6
+  | NC => negb (Z.testbit f 0) | C_ => Z.testbit f 0
+  | PO => negb (Z.testbit f 2) | PE => Z.testbit f 2
+  | P_ => negb (Z.testbit f 7) | M_ => Z.testbit f 7
+  end.
